@@ -181,6 +181,8 @@ class ZeroLinearOperator(LinearOperator):
         raise RuntimeError("ZeroLinearOperators are not invertible!")
 
     def logdet(self: Float[LinearOperator, "*batch M N"]) -> Float[Tensor, " *batch"]:
+        if not self.is_square:
+            raise RuntimeError(f"logdet only operates on square LinearOperators. Got size {self.size()}.")
         return torch.log(torch.tensor(0.0))
 
     def matmul(
@@ -224,4 +226,9 @@ class ZeroLinearOperator(LinearOperator):
         self: Float[LinearOperator, "... #M #N"],
         other: Union[Float[Tensor, "... #M #N"], Float[LinearOperator, "... #M #N"], float],
     ) -> Union[Float[LinearOperator, "... M N"], Float[Tensor, "... M N"]]:
+        if torch.is_tensor(other) or isinstance(other, LinearOperator):
+            # 0 + other is other, broadcast to the common shape (incompatible shapes raise)
+            shape = torch.broadcast_shapes(self.shape, other.shape)
+            if shape != other.shape:
+                other = other.expand(*shape)
         return other
